@@ -1,8 +1,11 @@
 package main
 
 import (
+	"encoding/hex"
+	"math/big"
 	"os"
 	"path/filepath"
+	"sync"
 
 	"bytes"
 	"crypto"
@@ -251,4 +254,142 @@ func runC17P12Files(c *Ctx) {
 		rep.Violation("C17/pkcs12.SM2P12Decrypt/panic/"+pi.Func, "missing file: "+pi.Value, nil)
 	}
 	os.RemoveAll(dir)
+}
+
+// Several goroutines decoding and encoding different bundles (different passwords, hence different salts and derived
+// keys) at the same time: each must get its own key and certificate back. The key derivation works on per-call buffers;
+// anything it shares between calls shows up as a wrong key for somebody.
+func runC17P12Concurrent(c *Ctx) {
+	rep := c.Rep
+	r := c.Rng("p12conc")
+	type item struct {
+		k    *sm2.PrivateKey
+		cert *gx509.Certificate
+		pw   string
+		pfx  []byte
+	}
+	var items []item
+	for i := 0; i < 8; i++ {
+		k := newSM2Key(r)
+		cert, _, err := issueSM2(certSpec{cn: fmt.Sprintf("p12 conc %d", i), serial: int64(7100 + i)}, &k.PublicKey, nil, k, r)
+		if err != nil {
+			continue
+		}
+		pw := fmt.Sprintf("password-%d-%s", i, []string{"", "ä", "long-long-long-long-long"}[i%3])
+		pfx, err := pkcs12.Encode(k, cert, nil, pw)
+		if err != nil {
+			continue
+		}
+		items = append(items, item{k, cert, pw, pfx})
+	}
+	if len(items) < 4 {
+		return
+	}
+	var mu sync.Mutex
+	bad := map[string]int{}
+	total := 0
+	runConcurrently(16, func(g int) {
+		rr := mon.NewRNG(uint64(g) + 99)
+		for n := 0; n < c.Q(40, 400); n++ {
+			it := items[rr.Intn(len(items))]
+			var pk interface{}
+			var certs []*gx509.Certificate
+			var err error
+			why := ""
+			if n%4 == 3 {
+				// encode afresh and decode that
+				var pfx []byte
+				if pi := mon.Guard(func() {
+					if pfx, err = pkcs12.Encode(it.k, it.cert, nil, it.pw); err == nil {
+						pk, certs, err = pkcs12.DecodeAll(pfx, it.pw)
+					}
+				}); pi != nil {
+					why = "panic in " + pi.Func
+				}
+			} else if pi := mon.Guard(func() { pk, certs, err = pkcs12.DecodeAll(it.pfx, it.pw) }); pi != nil {
+				why = "panic in " + pi.Func
+			}
+			if why == "" {
+				switch kk := pk.(type) {
+				case *sm2.PrivateKey:
+					if err != nil || kk.D.Cmp(it.k.D) != 0 || len(certs) == 0 || !bytes.Equal(certs[0].Raw, it.cert.Raw) {
+						why = fmt.Sprintf("wrong result: err=%v", err)
+					}
+				case *ecdsa.PrivateKey:
+					if err != nil || kk.D.Cmp(it.k.D) != 0 || len(certs) == 0 || !bytes.Equal(certs[0].Raw, it.cert.Raw) {
+						why = fmt.Sprintf("wrong result: err=%v", err)
+					}
+				default:
+					why = fmt.Sprintf("err=%v key %T", err, pk)
+				}
+			}
+			mu.Lock()
+			total++
+			if why != "" {
+				bad[why]++
+			}
+			mu.Unlock()
+		}
+	})
+	// the same with bundles whose iteration count is 1 (third-party fixtures): thousands of key derivations overlap
+	if len(p12FastFixtures) > 0 {
+		type fast struct {
+			pfx, leaf []byte
+			d         *big.Int
+			pw        string
+		}
+		var fs []fast
+		for i, fx := range p12FastFixtures {
+			pfx, _ := hex.DecodeString(fx.pfx)
+			leaf, _ := hex.DecodeString(fx.leafDER)
+			kb, _ := hex.DecodeString(fx.keyInfo)
+			fs = append(fs, fast{pfx, leaf, new(big.Int).SetBytes(kb), fmt.Sprintf("fast-pw-%d", i+1)})
+		}
+		// sequential control first: a fixture this library cannot open is left out
+		var usable []fast
+		for _, f := range fs {
+			if _, _, err := pkcs12.DecodeAll(f.pfx, f.pw); err == nil {
+				usable = append(usable, f)
+			}
+		}
+		if len(usable) >= 2 {
+			runConcurrently(16, func(g int) {
+				rr := mon.NewRNG(uint64(g) + 7)
+				for n := 0; n < c.Q(1500, 20000); n++ {
+					f := usable[rr.Intn(len(usable))]
+					var pk interface{}
+					var certs []*gx509.Certificate
+					var err error
+					why := ""
+					if pi := mon.Guard(func() { pk, certs, err = pkcs12.DecodeAll(f.pfx, f.pw) }); pi != nil {
+						why = "panic in " + pi.Func
+					} else if err != nil {
+						why = "iteration-count-1 bundle: " + shortErr(err)
+					} else {
+						var d *big.Int
+						switch kk := pk.(type) {
+						case *sm2.PrivateKey:
+							d = kk.D
+						case *ecdsa.PrivateKey:
+							d = kk.D
+						}
+						if d == nil || d.Cmp(f.d) != 0 || len(certs) == 0 || !bytes.Equal(certs[0].Raw, f.leaf) {
+							why = "iteration-count-1 bundle: another key or certificate"
+						}
+					}
+					mu.Lock()
+					total++
+					if why != "" {
+						bad[why]++
+					}
+					mu.Unlock()
+				}
+			})
+		}
+	}
+	for why, n := range bad {
+		rep.Violation("C17/pkcs12/concurrent-use-with-the-right-passwords-fails", fmt.Sprintf("%d of %d concurrent decodes/encodes: %s", n, total, why), nil)
+	}
+	rep.Count("pkcs12_operations_run_concurrently", int64(total))
+	rep.Eval("pkcs12/concurrent/16-goroutines")
 }
